@@ -79,7 +79,10 @@ def texts(thorough=False):
                 out.append(m + p + u)
     out += ['', 'B', '1', '1 B', '1e3B', '1KBB', 'KB', '1.KB', '1..5KB',
             '--1KB', '1Kbits', '1KiB ', ' 1KiB', '1kb\n', '1BK', '1iB',
-            '0x10B', '1_0B', '١KB']
+            '0x10B', '1_0B', '١KB',
+            # every other spelling of the unit is malformed
+            '1KBit', '1Bit', '1KBIT', '1KbIt', '1Kbi', '1KBi', '1Kbt',
+            '1MBit', '8 MBit', '1Kbyte', '1KBs', '1Kbb', '1KiBit', '1bIT']
     return tuple(out)
 
 
@@ -122,7 +125,9 @@ QEMU_TEXTS = (
     '18446744073709551615', '.5G', '.25 MiB', '0.5G', '1.K', 'x.5M',
     '5.e+1', '1E+3 K', '1e-1', ' 7M', '7 M ', 'size 3K', '1.5kB', '1,5G',
     '1.5E', '2.5EB', '0.5 EiB', '1.25E (7 bytes)', '7.5Ei', 'None',
-    'unavailable', 'none', '8 Kb', '16 Mbit', '9 bit', '8 Kib')
+    'unavailable', 'none', '8 Kb', '16 Mbit', '9 bit', '8 Kib',
+    # fractions of a byte round up, with and without a prefix
+    '1.5 B', '.5 B', '1.5B', '0.5 B', '2.25 B', '1.5 b', '8 MBit', '3 Bit')
 
 
 def _qemu_public(ctx, cls):
